@@ -680,6 +680,9 @@ func runDoc(c *hl.Ctx, d doc, tc famCfg) {
 			}
 			if hc {
 				nontrivial++
+				if verifyDistinct && !c.Distinct("verify_distinct_texts", string(buf)) {
+					panic(fmt.Sprintf("harness self-check: decorated text %q enumerated twice", buf))
+				}
 			} else {
 				pass++
 			}
@@ -832,6 +835,10 @@ func evalBig(c *hl.Ctx, bc bigCase, m rmode) {
 // ---------------------------------------------------------------- run
 
 var countOnly = os.Getenv("C17_COUNT") != ""
+
+// development aid: C17_VERIFY_DISTINCT=1 hashes every decorated text and panics on a repeat, to confirm
+// that the by-construction count reported as distinct_nontrivial equals the hashed count.
+var verifyDistinct = os.Getenv("C17_VERIFY_DISTINCT") != ""
 
 func run(c *hl.Ctx) {
 	c.Rule("E3 bounded-exhaustive. Documents (deduplicated by text): family S = every string of <=3 elements of the hostile alphabet as top-level value, array element, object key, object member value (+ the same strings spelled with the alternative \\uXXXX and \\/ escapes); family P = every ordered pair of strings of <=2 elements as [s,t] and {s:t}; family T = every value tree of depth<=2 over the atom/filler/key alphabets (bounds in info.families). Each document x decoration vector over the decoration alphabet (7 base + 2 extended elements) at every token boundary (all 9^b vectors for b<=4, all 7^b base vectors plus every <=2-decorated vector using an extended element for 4<b<=full bound, otherwise every vector over the 9 elements with at most max decorated boundaries) x final unterminated line comment {none, //c, //} x reads {whole, data+EOF in one call, 1-byte, every 2-split}. Family size = documents of 65535..262145 bytes made of one long string / number run / space run / block comment / line comment / many short strings x {plain, line comment before the last token, final //c} x read modes. distinct_nontrivial = number of distinct decorated texts containing at least one comment that went through the oracle (documents are deduplicated by their text before sharding; distinct decoration vectors of one token list give distinct texts by construction; read modes are not counted).")
